@@ -311,12 +311,31 @@ def add_class_mods(draw, data):
 def case_strategy(draw):
     data = draw(L.library(L.Opts(max_classes=7)))
     add_class_mods(draw, data)
+    # constant gadget: a class constant that one model READS through its class-qualified name
+    # (K.cg) and another model MODIFIES on a component of K - requests in either order must agree
+    gadget = None
+    tops = [c["id"] for c in data["classes"] if c["parent"] is None and c["kind"] == "model"]
+    if tops and draw(st.integers(0, 2)) == 0:
+        k = draw(st.sampled_from(tops))
+        kc = [c for c in data["classes"] if c["id"] == k][0]
+        kc["comps"].append({"name": "cg", "cls": "Real", "prefixes": ["constant"], "dims": [], "mods": [], "value": ["real", "9.81"]})
+        data["classes"].append({"id": "KR", "parent": None, "kind": "model", "extends": [], "ieqs": [],
+                                "comps": [{"name": "r", "cls": "Real", "prefixes": [], "dims": [], "mods": [], "value": None}],
+                                "eqs": [[["var", "r"], ["bin", "*", ["int", 2], ["var", k + ".cg"]]]]})
+        data["classes"].append({"id": "KU", "parent": None, "kind": "model", "extends": [], "ieqs": [], "eqs": [],
+                                "comps": [{"name": "u", "cls": k, "prefixes": [], "dims": [], "value": None,
+                                           "mods": [{"path": ["cg"], "attr": "value", "expr": ["real", "1.62"]}]}]})
+        gadget = ["KR", "KU"]
     lib = L.Lib(data)
     models = lib.models()
     memo = {}
     pairs = [(a, b) for a in models for b in uses_closure(lib, a, memo) if b in models]
     mode = draw(st.integers(0, 5))
-    if pairs and mode <= 3:
+    if gadget and mode <= 2:
+        core = list(gadget) if draw(st.booleans()) else list(reversed(gadget))
+        if mode == 0:
+            core.append(core[0])
+    elif pairs and mode <= 3:
         a, b = draw(st.sampled_from(pairs))
         core = [a, b] if draw(st.booleans()) else [b, a]
         if mode <= 1:
